@@ -7,6 +7,7 @@ import (
 	"context"
 	"errors"
 	"fmt"
+	"strings"
 	"sync"
 	"time"
 
@@ -55,15 +56,16 @@ type Delivered struct {
 
 // Snapshot deep-copies a transaction.
 func Snapshot(tx *gobinlog.Transaction) *Delivered {
-	d := &Delivered{Now: hist.Pos{File: tx.NowPosition.Filename, Off: tx.NowPosition.Offset},
-		Next: hist.Pos{File: tx.NextPosition.Filename, Off: tx.NextPosition.Offset}, TS: tx.Timestamp, Ptr: tx}
+	// strings are cloned: a snapshot must not share memory with the delivery
+	d := &Delivered{Now: hist.Pos{File: strings.Clone(tx.NowPosition.Filename), Off: tx.NowPosition.Offset},
+		Next: hist.Pos{File: strings.Clone(tx.NextPosition.Filename), Off: tx.NextPosition.Offset}, TS: tx.Timestamp, Ptr: tx}
 	for _, e := range tx.Events {
 		if e == nil {
 			d.Events = append(d.Events, DEvent{NilRow: true})
 			continue
 		}
-		de := DEvent{Type: int(e.Type), DB: e.Table.DbName, Table: e.Table.TableName, QueryDB: e.Query.Database,
-			SQL: e.Query.SQL, TS: e.Timestamp}
+		de := DEvent{Type: int(e.Type), DB: strings.Clone(e.Table.DbName), Table: strings.Clone(e.Table.TableName),
+			QueryDB: strings.Clone(e.Query.Database), SQL: strings.Clone(e.Query.SQL), TS: e.Timestamp}
 		if e.Query.Charset != nil {
 			de.Charset = &[3]int32{e.Query.Charset.Client, e.Query.Charset.Conn, e.Query.Charset.Server}
 		}
@@ -86,7 +88,7 @@ func snapRows(rows []*gobinlog.RowData) [][]DCol {
 			if c == nil {
 				continue
 			}
-			cols[i] = DCol{Name: c.Filed, Type: int(c.Type), IsEmpty: c.IsEmpty}
+			cols[i] = DCol{Name: strings.Clone(c.Filed), Type: int(c.Type), IsEmpty: c.IsEmpty}
 			if c.Data != nil {
 				cols[i].Data = append([]byte{}, c.Data...)
 			}
@@ -438,6 +440,9 @@ func (s *Session) Start(hs HandlerScript, xo *xport.Options) *Running {
 			}
 			s.mu.Lock()
 			s.streamActive = false
+			if s.inFlight != 0 {
+				s.guard = append(s.guard, "a handler call was still in flight when Stream returned")
+			}
 			s.mu.Unlock()
 			s.Tr.Add("stream-return", int64(att), 0, "")
 		}()
